@@ -10,12 +10,15 @@
                the two call contexts (worker / parent) dumps for either kind of storage; force_dump only from adaptive
   5 shared     a storage class that lets workers dump has cross-process backing which no method rebinds
   6 executor   _executor_for_func returns or raises on every path, own entry first, then the '' default
+  8 no-shared-write  element tasks never store into a dict/list that the per-element partial binds once for the whole map
+  9 no-process-memo  nothing read from run-folder files is kept in module-level containers / lru_caches
   7 picklable-state  every attribute in which PipeFunc keeps the user's function object is pickled by value (process pools)
 """
 
 from __future__ import annotations
 
 import ast
+import re
 import itertools
 
 from ..cfg import ENTRY, EXIT
@@ -409,8 +412,81 @@ def rule_picklable_state(ctx: Ctx) -> None:
     ctx.floor("7-picklable-state.holders", n, 1)
 
 
+def rule_no_shared_write(ctx: Ctx) -> None:
+    """Element tasks do not write into objects that all elements of a map share.
+
+    The per-element function is a `functools.partial` whose bound arguments are created ONCE per map and shared by every
+    element task (in-process executors run them on that very object, process pools on a copy per task).  If a task stores into
+    a bound dict/list, what later tasks see depends on which task ran first and on the executor - exactly what C03 excludes.
+    Storage arrays are the intended exception (their element writes are disjoint by construction: rules 3 and 4)."""
+    from ..flow import param_mutated_in_closure
+
+    P = ctx.prog
+    n = 0
+    for f in [f_ for f_ in P.functions_in(RUN) if f_.cls is None]:
+        for c in [c for c in ast.walk(f.node) if isinstance(c, ast.Call) and dotted(c.func) in ("functools.partial", "partial") and c.args]:
+            for target in ctx.cg.resolve_callable(f, c.args[0]):
+                anns = {a.arg: norm(a.annotation) if a.annotation is not None else "" for a in target.params}
+                bound = [k.arg for k in c.keywords if k.arg] + [p_ for i, p_ in enumerate(target.param_names()) if i < len(c.args) - 1]
+                for p_ in bound:
+                    if not re.match(r"(dict|list|Dict|List|MutableMapping|set)\b", anns.get(p_, "")):
+                        continue
+                    n += 1
+                    muts = param_mutated_in_closure(ctx, target, p_)
+                    ctx.add("8-no-shared-write", muts[0][0] if muts else target, muts[0][1] if muts else target.node, not muts,
+                            f"`{p_}` (bound once per map in {f.name}) is only read by the element tasks" if not muts else
+                            f"`{norm(muts[0][1])[:60]}` writes into `{p_}`, which {f.name} binds ONCE for all element tasks of the map: with an in-process executor later elements see what an earlier element stored "
+                            "(the result depends on start order), with a process pool they do not", key=f"shared {target.name}.{p_}")
+    ctx.floor("8-no-shared-write", n, 1)
+
+
+PROCESS_STATE_EXEMPT = {
+    "pipefunc._utils._cached_load": "only reached through load(..., cache=True); C04.1 fresh-load forbids that for every result/inputs load",
+}
+
+
+def rule_no_process_memo(ctx: Ctx) -> None:
+    """What is read from a run folder is not remembered in process-global state.
+
+    A module-level container (or an lru_cache) filled with values that were read from files lives as long as the process: a
+    second map into the same folder in the same process (sequential, threads, a long-lived pool) is served the remembered
+    values, a fresh worker process reads the files - the result depends on the executor and on history.  Rule: in the map and
+    storage modules no function that (transitively) reads files stores into a module-level container or is memoised."""
+    from ..effects import FS_READ
+
+    P = ctx.prog
+    mutators = ("append", "extend", "insert", "pop", "remove", "clear", "update", "setdefault", "popitem", "add", "discard", "__setitem__")
+    n = 0
+    for mn, mod in P.modules.items():
+        if not (mn.startswith("pipefunc.map") or mn == "pipefunc._utils"):
+            continue
+        glob = {nm for nm, v in mod.assigns.items() if isinstance(v, (ast.Dict, ast.List, ast.Set, ast.DictComp, ast.ListComp))
+                or (isinstance(v, ast.Call) and dotted(v.func).rsplit(".", 1)[-1] in ("dict", "list", "set", "defaultdict", "OrderedDict", "WeakValueDictionary", "deque"))}
+        for fn in P.functions_in(mn):
+            reads = ctx.effects.has(fn.qualname, FS_READ)
+            memo = [d for d in fn.decorators if d.rsplit(".", 1)[-1] in ("lru_cache", "cache")]
+            if memo:
+                n += 1
+                ok = not reads or fn.qualname in PROCESS_STATE_EXEMPT
+                ctx.add("9-no-process-memo", fn, fn.node, ok, f"memoised function {fn.name}: " + (PROCESS_STATE_EXEMPT.get(fn.qualname, "reads no files")) if ok else
+                        f"{fn.name} is memoised with @{memo[0]} and reads files: a later run in the same process gets the remembered content, a fresh worker process the current one", key=f"memo {fn.name}")
+            local = {a.arg for a in fn.params} | {t.id for a in ast.walk(fn.node) if isinstance(a, ast.Assign) for t in a.targets if isinstance(t, ast.Name)}
+            for x in ast.walk(fn.node):
+                name = None
+                if isinstance(x, ast.Subscript) and isinstance(x.ctx, (ast.Store, ast.Del)) and isinstance(x.value, ast.Name):
+                    name = x.value.id
+                if isinstance(x, ast.Call) and isinstance(x.func, ast.Attribute) and x.func.attr in mutators and isinstance(x.func.value, ast.Name):
+                    name = x.func.value.id
+                if name in glob and name not in local:
+                    n += 1
+                    ctx.add("9-no-process-memo", fn, x, not reads, f"`{name}` is written by {fn.name}, which reads no files (a registry)" if not reads else
+                            f"`{norm(x)[:60]}` stores into the module-level `{name}` in a function that reads files of a run folder: the remembered value outlives the folder's content "
+                            "(a second map in the same process is served stale data, a fresh worker process is not)", key=f"global {fn.name} {name}")
+    ctx.floor("9-no-process-memo", n, 2)
+
+
 def check(ctx: Ctx) -> None:
-    for rule in (rule_mirror, rule_barrier, rule_placement, rule_one_dump, rule_shared, rule_executor, rule_picklable_state):
+    for rule in (rule_mirror, rule_barrier, rule_placement, rule_one_dump, rule_shared, rule_executor, rule_picklable_state, rule_no_shared_write, rule_no_process_memo):
         ctx.run(rule)
 
 
